@@ -10,8 +10,8 @@ from pathlib import Path
 
 src, sid, prop = Path(sys.argv[1]), sys.argv[2], sys.argv[3]
 checks = sys.argv[4:] or [prop]
-wt = Path("/tmp/confirm_wt")
-BASE = Path("/tmp/confirm_wt_base.json")
+wt = Path(os.environ.get("CONFIRM_WT", "/tmp/confirm_wt"))      # several confirmations can run side by side
+BASE = Path(str(wt) + "_base.json")
 log = {}
 
 
